@@ -100,5 +100,9 @@ PROPS["C18"] = {
     "technique": "TLC on a protocol model extracted from the code + TLC behaviours replayed under jit/vmap/scan/grad",
 }
 
+_cond("C16", [("MC_C16", "MC_C16_quick.cfg")],
+      "Moments of y under p(y|x)p(x) are defined in the specification as values with atoms: kernel expectations are exp-atoms whose exponent the semantic layer computes as the log-mass of the product measure (TLC cross-checks them against the independent convolution-of-Gaussians closed form and checks unit height of every kernel), link expectations are exp / Phi / phi atoms at rational arguments; mean, covariance and cross-covariance of the marginal and joint transformations of every class are replayed into the code; p(y|x) is condition_on_x of the same object; the conditional transformation is checked as the Gaussian conditional of the (validated) joint on the code's own objects.",
+      "6 classes; Dx,Dy in {1,2}; 1-2 kernels / noise units; Da in {2,3}; p(x) with R in {1,2}; non-zero offsets")
+
 NOT_APPLICABLE = {}
 HOOK_COMMITS = []
